@@ -9,8 +9,8 @@ use crate::error::ContractError::InvalidPricePrecisionSizePair;
 use crate::execute::modify_contract::modify_contract;
 use crate::msg::{ExecuteMsg, InstantiateMsg, MigrateMsg, QueryMsg, Validate};
 use crate::util::{
-    add_transfer, get_attributes, is_invalid_price_precision, is_restricted_marker,
-    transfer_marker_coins,
+    add_transfer, calculate_fee_size, get_attributes, is_invalid_price_precision,
+    is_restricted_marker, transfer_marker_coins,
 };
 use crate::version_info::{
     get_version_info, migrate_version_info, set_version_info, VersionInfoV1, CRATE_NAME,
@@ -22,7 +22,7 @@ use cosmwasm_std::{
 };
 use provwasm_std::types::provenance::attribute::v1::AttributeQuerier;
 use rust_decimal::prelude::{FromStr, ToPrimitive, Zero};
-use rust_decimal::{Decimal, RoundingStrategy};
+use rust_decimal::Decimal;
 use std::cmp::Ordering;
 use std::collections::HashSet;
 
@@ -525,12 +525,7 @@ fn create_bid(
     };
 
     // Calculate the expected fees (bid_fee_rate * total)
-    let calculated_fee_size = bid_fee_rate
-        .checked_mul(total)
-        .ok_or(ContractError::TotalOverflow)?
-        .round_dp_with_strategy(0, RoundingStrategy::MidpointAwayFromZero)
-        .to_u128()
-        .ok_or(ContractError::TotalOverflow)?;
+    let calculated_fee_size = calculate_fee_size(bid_fee_rate, total)?;
 
     match &mut bid_order.fee {
         Some(fee) => {
@@ -1123,16 +1118,12 @@ fn execute_match(
     let ask_fee = match contract_info.ask_fee_info {
         // calculate ask fee using total
         Some(ask_fee_info) => {
-            match Decimal::from_str(&ask_fee_info.rate)
-                .map_err(|_| ContractError::InvalidFields {
+            let ask_fee_rate = Decimal::from_str(&ask_fee_info.rate).map_err(|_| {
+                ContractError::InvalidFields {
                     fields: vec![String::from("ContractInfo.ask_fee_info.rate")],
-                })?
-                .checked_mul(actual_gross_proceeds)
-                .ok_or(ContractError::TotalOverflow)?
-                .round_dp_with_strategy(0, RoundingStrategy::MidpointAwayFromZero)
-                .to_u128()
-                .ok_or(ContractError::TotalOverflow)?
-            {
+                }
+            })?;
+            match calculate_fee_size(ask_fee_rate, actual_gross_proceeds)? {
                 0u128 => None,
                 fee_total => {
                     let ask_fee = Coin {
